@@ -81,7 +81,10 @@ let () =
     spec "c13_metric_keys_distinct" (Stdlib.List.length (Stdlib.List.sort_uniq compare (Stdlib.List.map fst impl)) = Stdlib.List.length impl) "";
     spec "c13_metric_nonnegative" (Stdlib.List.for_all (fun (_, x) -> x >= 0.0) impl) "";
     if impl <> [] && Stdlib.List.exists (fun (_, x) -> x > 0.0) impl then
-      spec "c13_metric_max_is_one" (Float.abs (Stdlib.List.fold_left (fun a (_, x) -> Float.max a x) 0.0 impl -. 1.0) <= 1e-6) "";
+      (* exactly one: the largest raw distance divided by itself (IEEE: x / x = 1 for finite non-zero x); a table whose
+         largest entry is 0.99999994 (scaled by a rounded reciprocal, say) is not "scaled to a maximum of one" *)
+      (let mx = Stdlib.List.fold_left (fun a (_, x) -> Float.max a x) 0.0 impl in
+       spec "c13_metric_max_is_one" (mx = 1.0) (Printf.sprintf "the largest entry is %.9g" mx));
     !fails end);
   register "init" (fun i o ->
     let all = Array.to_list o in
